@@ -21,7 +21,7 @@ func init() {
 		Text: "in the module-internal call tree of QFrame.ToJSON (all AppendByteStringAt implementations included) no non-constant Go string is turned into output bytes except inside the escaper strings.AppendQuotedString: no []byte(s), append(buf, s...) or copy(buf, s) of a non-constant string elsewhere, and no function outside the module (strconv.AppendQuote, fmt.Append*, ...) that returns bytes is handed a non-constant string",
 		Run:  runR27})
 	register(&Rule{ID: "R33", Name: "NARROW", Floor: 4,
-		Text: "every narrowing integer conversion to an 8-bit type in internal/ecolumn and internal/strings is justified by dominating guards: the operand's upper bound is < nullValue (255) for enumVal and < utf8.RuneSelf (0x80) for a rune stored as one byte; lower bound >= 0",
+		Text: "every narrowing or sign-reinterpreting integer conversion to an 8-bit type in internal/ecolumn and internal/strings (int -> enumVal, rune -> byte, uint8 -> int8) is justified by dominating guards: the operand's upper bound is < nullValue (255) for enumVal and < utf8.RuneSelf (0x80) for a rune stored as one byte; lower bound >= 0",
 		Run:  runR33})
 }
 
@@ -583,13 +583,16 @@ func runR33(c *Ctx) {
 				if !ok {
 					return
 				}
-				tb, _, okT := intWidth(cv.Type())
-				sb, _, okS := intWidth(cv.X.Type())
-				if !okT || !okS || tb != 8 || sb <= 8 {
+				tb, tSigned, okT := intWidth(cv.Type())
+				sb, sSigned, okS := intWidth(cv.X.Type())
+				if !okT || !okS || tb != 8 || sb < 8 || sb == 8 && tSigned == sSigned {
 					return
 				}
 				limit := int64(255)
 				meaning := "the 8-bit target"
+				if tSigned {
+					limit, meaning = 127, "a signed 8-bit target (values from 128 turn negative)"
+				}
 				if enumT != nil && types.Identical(cv.Type(), enumT) {
 					limit, meaning = 254, "enumVal below nullValue (255)"
 				} else if isRune(cv.X.Type()) {
